@@ -446,6 +446,14 @@ class LibMap:
             if is_scalar(ct):
                 self.minmax.add((name, ct))
                 return "vf_%s_%s(%s, %s)" % (name, ident(ct), em.E(args[0]), em.E(args[1]))
+        if name == "make_exception_ptr" and len(args) == 1:
+            # std::make_exception_ptr(E(...)): only the kind of the exception survives (payload dropped, DESIGN 3.2)
+            t = peel(em.tm, em.ptype(args[0]))
+            if t.kind != "named":
+                return None
+            cn = "VF_EXC_" + ident(t.last)
+            em.exc_kinds.add(cn)
+            return "((vf_excptr)%s)" % cn
         if name == "clamp" and len(args) == 3:
             ct = em.ctype(n)
             self.minmax.add(("clamp", ct))
@@ -465,6 +473,14 @@ class LibMap:
                 if tag in em.tm.seq_insts or True:
                     em.tm.seq_insts.setdefault(tag, ct[:-1])
                     return "vf_seq_%s_%s_in(%s, %s, %s)" % (tag, name, em.E(args[0]), em.E(args[1]), em.E(args[2]))
+        if name == "find" and len(args) == 2:
+            # range form (boost::range::find / std::ranges::find) over a sequence container: find(begin, end, v)
+            ct = self.mapped(em, args[0])
+            if ct and ct.startswith("struct vf_seq_") and not ct.endswith("*"):
+                tag = ct[len("struct vf_seq_"):]
+                p = em.addr_of(args[0])
+                return "vf_seq_%s_find_in(vf_seq_%s_begin(%s), vf_seq_%s_end(%s), %s)" % (tag, tag, p, tag, p,
+                                                                                        em.E(args[1]))
         if name in em.ALGO_BODIES and len(args) == 3:
             r = em.algo_call(n, name, args)
             if r is not None:
@@ -511,6 +527,12 @@ class LibMap:
                          "long double": "fabsl"}.get(act, None)
                 if cname is None:
                     return None
+            if name in ("isfinite", "isnan", "isinf") and len(args) == 1:
+                # classification macros of <math.h> expand to __builtin_* that goto-instrument --dfcc cannot
+                # instrument: use CBMC's primitives (same IEEE semantics)
+                suf = {"double": "d", "float": "f", "long double": "ld"}.get(self.mapped(em, args[0]))
+                if suf is not None:
+                    return "__CPROVER_%s%s(%s)" % (name, suf, a[0])
             return "%s(%s)" % (cname, ", ".join(a))
         if name in CLIB:
             return "%s(%s)" % (name, ", ".join(em.E(x) for x in args))
@@ -542,6 +564,13 @@ class LibMap:
             if core.get("kind") == "StringLiteral":
                 return "VF_STRLIT(%s)" % core["value"]
             return self.str_fn(em, "vf_str_from_cstr", "vf_str", ["char*"], [em.E(a0)])
+        if ct == "vf_excptr":
+            # std::exception_ptr(): null; exception_ptr(nullptr): null; copy: the same kind
+            if not args or skip(args[0]).get("kind") in ("CXXNullPtrLiteralExpr", "GNUNullExpr"):
+                return "((vf_excptr)0)"
+            if self.mapped(em, args[0]) == ct:
+                return em.E(args[0])
+            return None
         if is_scalar(ct):
             if not args:
                 return "((%s)0)" % ct
